@@ -117,11 +117,14 @@ def parse_state(block):
     return state
 
 
-def read_dump(path):
-    """States of a `-dump` file."""
+def read_dump(path, skip=None):
+    """States of a `-dump` file.  `skip`: a substring; states whose text contains it are not parsed (trace
+    validators only need the states that carry a final verdict, and their states can be large)."""
     with open(path) as f:
         text = f.read()
     for block in re.split(r"^State \d+:\n", text, flags=re.M)[1:]:
+        if skip is not None and skip in block:
+            continue
         yield parse_state(block)
 
 
